@@ -1,8 +1,8 @@
 (* Extraction for the C17 correspondence driver. ExtrOcamlBasic only; Z/N stay datatypes. *)
 From Coq Require Import Extraction ExtrOcamlBasic ZArith NArith List.
-From GoSecs Require Import Secs1.Block Secs1.Assembler.
+From GoSecs Require Import Secs1.Block Secs1.Assembler Secs1.RecvStream.
 Extraction Language OCaml.
 Extraction "c17_model.ml"
   Z.add Z.mul Z.opp Z.sub Z.div_eucl Z.of_N Z.to_N N.add N.mul N.div_eucl Z.eqb Z.ltb
   build_header msg_header hdr_num hdr_ebit split_body split_frame append_block parse_block
-  assemble_frame wire_of_blocks accept astate0 spec_step sstate0 deliveries_of.
+  assemble_frame wire_of_blocks accept astate0 spec_step sstate0 deliveries_of rstep rrun.
